@@ -381,8 +381,8 @@ func (s *scen18) emitCase(label string) {
 // channel handed back to a sync.Pool is the one the next request gets depends on the P the two goroutines run on.
 func c18forcedAll(seed uint64, reps int) {
 	for rep := 0; rep < reps; rep++ {
-		for _, w := range []string{"cancel-while-popped", "id-comes-round"} {
-			if w == "id-comes-round" && rep > 0 {
+		for _, w := range []string{"cancel-while-popped", "id-comes-round", "id-of-unsent-request"} {
+			if w != "cancel-while-popped" && rep > 0 {
 				continue
 			}
 			var err error
@@ -607,6 +607,101 @@ func c18forced(r *rng.R, name, which string) error {
 			}
 		}
 		s.settle(taken)
+		s.emitCase("end")
+	case "id-of-unsent-request":
+		// A has taken its id and holds the instance lock; B takes the next id; A fails before anything is written
+		// (its context is done); B is sent and then abandoned; D is issued; the late answer to B must not reach D
+		ctl := sched.New()
+		uasc.VerifSetSchedHook(ctl.Hook)
+		defer uasc.VerifSetSchedHook(nil)
+		defer ctl.FreeAll()
+		ctl.Control("A", "B")
+		a := s.newCaller(tyWrite, 10*time.Second)
+		b := s.newCaller(tyWrite, 10*time.Second)
+		a.start(p.SC, a.Tid, 0, func() { ctl.Bind("A") }, func() { ctl.Done() })
+		if ctl.WaitParked("A", "sc.req.gotActive", 2*time.Second) == "" {
+			for i := 0; i < 4 && ctl.ParkedAt("A") != "sc.req.gotActive"; i++ {
+				if _, _, err := ctl.Step("A", 2*time.Second, 0); err != nil {
+					return fmt.Errorf("A did not reach sc.req.gotActive: %v", err)
+				}
+			}
+		}
+		b.start(p.SC, b.Tid, 0, func() { ctl.Bind("B") }, func() { ctl.Done() })
+		for i := 0; i < 4 && ctl.ParkedAt("B") != "sc.req.gotActive"; i++ {
+			if _, _, err := ctl.Step("B", 2*time.Second, 0); err != nil {
+				return fmt.Errorf("B did not reach sc.req.gotActive: %v", err)
+			}
+		}
+		// A: takes its id, locks the instance, stops at sc.send.locked
+		if _, now, err := ctl.Step("A", 2*time.Second, 0); err != nil || now != "sc.send.locked" {
+			return fmt.Errorf("A did not reach sc.send.locked: %v %s", err, now)
+		}
+		s.events = append(s.events, Ev{"alloc", a.Tid, 0, a.Want})
+		// B: takes the next id, then waits for the instance lock
+		if _, now, err := ctl.Step("B", 2*time.Second, 0); err != nil || now != "blocked" {
+			return fmt.Errorf("B is not waiting for the instance lock: %v %s", err, now)
+		}
+		s.events = append(s.events, Ev{"alloc", b.Tid, 0, b.Want})
+		// A fails before its first chunk
+		a.cancel()
+		ctl.Free("A")
+		select {
+		case <-a.done:
+		case <-time.After(2 * time.Second):
+			return fmt.Errorf("A did not return")
+		}
+		a.mu.Lock()
+		a.Code = 7
+		aid := a.ID
+		a.mu.Unlock()
+		s.idOf[a.Tid] = aid
+		s.probe[aid] = true
+		s.events = append(s.events, Ev{"reg", a.Tid}, Ev{"write", a.Tid, false})
+		taken[a.Tid] = true
+		// B is sent
+		ctl.Free("B")
+		rq, ok := p.Srv.Next(2 * time.Second)
+		if !ok || rq.Err != nil || markerOf(rq.Req) != b.Tid {
+			return fmt.Errorf("the server did not get B's request")
+		}
+		s.idOf[b.Tid] = rq.ReqID
+		s.probe[rq.ReqID] = true
+		s.events = append(s.events, Ev{"reg", b.Tid}, Ev{"write", b.Tid, true})
+		// B's caller gives up
+		b.cancel()
+		select {
+		case <-b.done:
+		case <-time.After(2 * time.Second):
+			return fmt.Errorf("B did not return")
+		}
+		s.settle(taken)
+		// D
+		dd := s.newCaller(tyWrite, 10*time.Second)
+		if err := s.launch([]*Caller{dd}); err != nil {
+			return err
+		}
+		// the late answer to B, then the answer to D
+		if err := s.frame("ok", s.idOf[b.Tid], b.Tid, tyWrite); err != nil {
+			return err
+		}
+		bar, err := s.barrierStart()
+		if err != nil {
+			return err
+		}
+		if err := s.barrierEnd(bar); err != nil {
+			return err
+		}
+		s.settle(taken)
+		if !dd.finished() {
+			if err := s.frame("ok", s.idOf[dd.Tid], dd.Tid, tyWrite); err != nil {
+				return err
+			}
+			select {
+			case <-dd.done:
+			case <-time.After(2 * time.Second):
+			}
+			s.settle(taken)
+		}
 		s.emitCase("end")
 	case "id-comes-round":
 		pend := s.newCaller(tyWrite, 10*time.Second)
